@@ -56,18 +56,38 @@ type LeafFacts struct {
 var leafFactsReg = map[LeafKey]LeafFacts{}
 
 // baseFactHook receives one fact per base application term created.
-var baseFactHook func(*Term)
+var baseFactHook func(fact *Term, univ func() *Term, name string)
 
+// baseFacts reports the type-level fact about one base read, together with a
+// generator of the same fact quantified over all arguments of the base function
+// (used when the read mentions a bound variable).
 func (h *HV) baseFacts(t *Term) {
-	if baseFactHook == nil {
+	if baseFactHook == nil || t.Op != "app" {
 		return
 	}
-	if h.lo != nil {
-		baseFactHook(And(Le(IntBig(h.lo), t), Le(t, IntBig(h.hi))))
+	name := t.Name
+	mk := func(x *Term) *Term {
+		var fs []*Term
+		if h.lo != nil {
+			fs = append(fs, Le(IntBig(h.lo), x), Le(x, IntBig(h.hi)))
+		}
+		if h.refWM != nil {
+			fs = append(fs, Le(Int(0), x), Le(x, h.refWM))
+		}
+		return And(fs...)
 	}
-	if h.refWM != nil {
-		baseFactHook(And(Le(Int(0), t), Le(t, h.refWM)))
+	if h.lo == nil && h.refWM == nil {
+		return
 	}
+	univ := func() *Term {
+		r := Var("q.r!"+name, SInt)
+		if h.hasKey {
+			k := Var("q.k!"+name, h.keySort)
+			return Forall([]*Term{r, k}, mk(App(name, h.sort, r, k)))
+		}
+		return Forall([]*Term{r}, mk(App(name, h.sort, r)))
+	}
+	baseFactHook(mk(t), univ, name)
 }
 
 var hvCounter int
